@@ -110,6 +110,9 @@ func (p *c16ScriptPeer) serve(c net.Conn) {
 			resp, p.script = p.script[0], p.script[1:]
 		}
 		p.mu.Unlock()
+		if resp == c16Drop {
+			return // the request was read completely; the connection is closed without an answer
+		}
 		if _, err := io.WriteString(c, resp); err != nil {
 			return
 		}
@@ -129,6 +132,9 @@ func (p *c16ScriptPeer) take() [][]byte {
 	p.got = nil
 	return g
 }
+
+// c16Drop as a script entry: read the request, then drop the connection instead of answering.
+const c16Drop = "\x00drop"
 
 const c16Challenge = `Digest realm="verif", nonce="dcd98b7102dd2f0e8b11d0f600bfb0c093", qop="auth", opaque="5ccc069c403ebaf9f0171e9517f40e41", algorithm=`
 
@@ -435,7 +441,7 @@ func c16ResendOracle(kind string, first, second []byte, order []string) (bool, s
 	}
 	last := -1
 	for _, l := range c16WireLines(second) {
-		if strings.HasPrefix(l[0], "__") {
+		if verifh.C16IsBookKey(l[0]) {
 			return false, "bookkeeping key on the wire: " + l[0]
 		}
 		ix := c01OrderIndex(order, l[0])
@@ -703,7 +709,7 @@ func TestVerif_C16_resendh23(t *testing.T) {
 				why = fmt.Sprintf("field multiset of leg %d (%s) differs from leg 1:\n leg 1: %q\n leg %d: %q", k+1, lk, b1, k+1, b2)
 			}
 			for name := range seen[k] {
-				if strings.HasPrefix(name, "__") {
+				if verifh.C16IsBookKey(name) {
 					ok, why = false, "bookkeeping key on the wire: "+name
 				}
 			}
